@@ -22,6 +22,7 @@ import (
 	"fmt"
 	"math/rand"
 	"os"
+	"path/filepath"
 	"reflect"
 	"runtime"
 	"sort"
@@ -174,7 +175,7 @@ func (n *fakeNet) redeliver() int {
 }
 
 func (n *fakeNet) Subscribe(string, dag.ReceiverFn, ...network.SubscriberOption) error { return nil }
-func (n *fakeNet) Subscribers() []dag.Notifier                                        { return nil }
+func (n *fakeNet) Subscribers() []dag.Notifier                                         { return nil }
 func (n *fakeNet) GetTransactionPayload(ref hash.SHA256Hash) ([]byte, error) {
 	if p, ok := n.payloads[ref]; ok {
 		return p, nil
@@ -188,16 +189,16 @@ func (n *fakeNet) GetTransaction(ref hash.SHA256Hash) (dag.Transaction, error) {
 	return nil, dag.ErrTransactionNotFound
 }
 func (n *fakeNet) ListTransactionsInRange(uint32, uint32) ([]dag.Transaction, error) { return nil, nil }
-func (n *fakeNet) PeerDiagnostics() map[transport.PeerID]transport.Diagnostics        { return nil }
+func (n *fakeNet) PeerDiagnostics() map[transport.PeerID]transport.Diagnostics       { return nil }
 func (n *fakeNet) Reprocess(context.Context, string) (*network.ReprocessReport, error) {
 	return nil, errors.New("not supported")
 }
 func (n *fakeNet) WithPersistency() network.SubscriberOption {
-	return func() dag.NotifierOption { return func(dag.Notifier) {} }
+	return func() dag.NotifierOption { return dag.WithRetryDelay(time.Second) }
 }
-func (n *fakeNet) DiscoverServices(did.DID)          {}
-func (n *fakeNet) AddressBook() []transport.Contact  { return nil }
-func (n *fakeNet) Disabled() bool                    { return false }
+func (n *fakeNet) DiscoverServices(did.DID)         {}
+func (n *fakeNet) AddressBook() []transport.Contact { return nil }
+func (n *fakeNet) Disabled() bool                   { return false }
 
 // faultMM decorates the real did:nuts method manager: a scripted Commit error before anything is published.
 type faultMM struct {
@@ -232,8 +233,10 @@ type tb struct {
 	cleanups []func()
 }
 
-func (x *tb) Cleanup(f func())          { x.cleanups = append(x.cleanups, f) }
-func (x *tb) Fatal(args ...any)         { panic(fmt.Sprint(append([]any{"harness set-up failed: "}, args...)...)) }
+func (x *tb) Cleanup(f func()) { x.cleanups = append(x.cleanups, f) }
+func (x *tb) Fatal(args ...any) {
+	panic(fmt.Sprint(append([]any{"harness set-up failed: "}, args...)...))
+}
 func (x *tb) Fatalf(f string, a ...any) { panic("harness set-up failed: " + fmt.Sprintf(f, a...)) }
 func (x *tb) Helper()                   {}
 
@@ -251,9 +254,36 @@ type env struct {
 
 var methods = []string{"web", "nuts"}
 
+// goose (schema migrations) keeps its dialect/logger in package variables: engines are created one at a time.
+var envMu sync.Mutex
+
+var templateDB []byte // a migrated, empty SQLite database: made once by the storage engine, copied for every environment (migrating takes longer than a whole pass)
+
 func newEnv(t *testing.T) *env {
+	envMu.Lock()
+	defer envMu.Unlock()
 	dir, err := os.MkdirTemp("", "c13-")
 	if err != nil {
+		panic(err)
+	}
+	if templateDB == nil {
+		x := &tb{TB: t}
+		eng := storage.NewTestStorageEngineInDir(x, dir)
+		if err := eng.GetSQLDatabase().Exec("PRAGMA wal_checkpoint(TRUNCATE)").Error; err != nil {
+			panic(err)
+		}
+		for i := len(x.cleanups) - 1; i >= 0; i-- {
+			x.cleanups[i]()
+		}
+		if templateDB, err = os.ReadFile(filepath.Join(dir, "sqlite.db")); err != nil {
+			panic(err)
+		}
+		_ = os.RemoveAll(dir)
+		if err := os.MkdirAll(dir, 0o755); err != nil {
+			panic(err)
+		}
+	}
+	if err := os.WriteFile(filepath.Join(dir, "sqlite.db"), templateDB, 0o644); err != nil {
 		panic(err)
 	}
 	x := &tb{TB: t}
@@ -262,9 +292,13 @@ func newEnv(t *testing.T) *env {
 		panic(err)
 	}
 	db := eng.GetSQLDatabase()
+	// one pooled connection (storage engine setting for SQLite): the pragma stays. No power-loss is modelled, so no fsync per commit is needed.
+	if err := db.Exec("PRAGMA synchronous=OFF").Error; err != nil {
+		panic(err)
+	}
 	ks := nutsCrypto.NewDatabaseCryptoInstance(db)
 	store := didstore.New(eng.GetProvider("vdr"))
-	if err := store.Configure(core.ServerConfig{}); err != nil {
+	if err := store.(core.Configurable).Configure(core.ServerConfig{}); err != nil {
 		panic(err)
 	}
 	net := &fakeNet{ks: ks, txs: map[hash.SHA256Hash]dag.Transaction{}, payloads: map[hash.SHA256Hash][]byte{}}
@@ -319,7 +353,9 @@ type subjSnap struct {
 }
 
 type snapshot struct {
-	Subjects  map[string]subjSnap
+	Subjects  map[string]subjSnap // full observation of the subject the operation is about
+	Rows      map[string][]string // every subject in the did table -> its DID / version / row id list (one query): what must not move for the others
+	Net       map[string]string   // did:nuts DID -> document hash on the network side
 	ChangeLog int64
 	DIDRows   int64
 	Versions  int64
@@ -386,14 +422,34 @@ func (e *env) snapSubject(name string) subjSnap {
 	return out
 }
 
-func (e *env) snap(subjects []string) *snapshot {
-	s := &snapshot{Subjects: map[string]subjSnap{}, Ledger: len(e.net.ledger)}
-	for _, name := range subjects {
-		s.Subjects[name] = e.snapSubject(name)
+func (e *env) snap(target string) *snapshot {
+	s := &snapshot{Subjects: map[string]subjSnap{}, Rows: map[string][]string{}, Net: map[string]string{}, Ledger: len(e.net.ledger)}
+	s.Subjects[target] = e.snapSubject(target)
+	var rows []struct {
+		Subject string
+		ID      string
+		Version *int
+		Vid     *string
 	}
+	if err := e.db.Raw("SELECT d.subject AS subject, d.id AS id, v.version AS version, v.id AS vid FROM did d LEFT JOIN did_document_version v ON v.did = d.id ORDER BY d.id, v.version").Scan(&rows).Error; err != nil {
+		panic(err)
+	}
+	for _, row := range rows {
+		line := row.ID + " (no version)"
+		if row.Version != nil {
+			line = fmt.Sprintf("%s v%d %s", row.ID, *row.Version, *row.Vid)
+		}
+		s.Rows[row.Subject] = append(s.Rows[row.Subject], line)
+		if _, done := s.Net[row.ID]; !done && strings.HasPrefix(row.ID, "did:nuts:") {
+			s.Net[row.ID] = "unresolvable"
+			if _, meta, err := e.store.Resolve(did.MustParseDID(row.ID), &resolver.ResolveMetadata{AllowDeactivated: true}); err == nil {
+				s.Net[row.ID] = meta.Hash.String()
+			}
+		}
+	}
+	s.DIDRows = int64(len(s.Rows))
+	s.Versions = int64(len(rows))
 	e.db.Raw("SELECT count(*) FROM did_change_log").Scan(&s.ChangeLog)
-	e.db.Raw("SELECT count(*) FROM did").Scan(&s.DIDRows)
-	e.db.Raw("SELECT count(*) FROM did_document_version").Scan(&s.Versions)
 	return s
 }
 
@@ -479,7 +535,7 @@ func genSequence(rnd *rand.Rand, idx int) []op {
 		dead     bool
 	}
 	nSubj := 1 + rnd.Intn(3)
-	length := 6 + rnd.Intn(6)
+	length := 5 + rnd.Intn(5)
 	var subs []*subj
 	var seq []op
 	serial := 0
@@ -845,10 +901,18 @@ func (p *pass) compare(o op, phase, class string, tookEffect bool, pre, post *sn
 	was := p.broken
 	p.broken = false
 	p.invariants(o, phase, pre, post)
-	for name := range post.Subjects {
-		if name != o.Subject && !reflect.DeepEqual(pre.Subjects[name], post.Subjects[name]) {
-			p.violation("C13/other-subject-changed", fmt.Sprintf("subject %s changed although the operation was on %s", name, o.Subject), o, phase, pre, post,
-				map[string]any{"other_before": pre.Subjects[name], "other_after": post.Subjects[name]})
+	for _, side := range []*snapshot{pre, post} {
+		for name := range side.Rows {
+			if name == o.Subject || reflect.DeepEqual(pre.Rows[name], post.Rows[name]) {
+				continue
+			}
+			p.violation("C13/other-subject-changed", fmt.Sprintf("rows of subject %s changed although the operation was on %s", name, o.Subject), o, phase, pre, post,
+				map[string]any{"other_before": pre.Rows[name], "other_after": post.Rows[name]})
+		}
+	}
+	for id, h := range post.Net {
+		if old, ok := pre.Net[id]; ok && old != h && !strings.Contains(strings.Join(post.Rows[o.Subject], " "), id) {
+			p.violation("C13/other-subject-changed", fmt.Sprintf("the network side of %s changed although the operation was on %s", id, o.Subject), o, phase, pre, post, nil)
 		}
 	}
 	b, a := pre.Subjects[o.Subject], post.Subjects[o.Subject]
@@ -938,18 +1002,23 @@ func (p *pass) run() {
 		}
 	}()
 	p.firedAll = true
-	known := map[string]bool{}
+	var last *snapshot // the snapshot taken after the previous operation: nothing ran since
 	for i, o := range p.seq {
 		if p.broken {
 			p.count("operations_skipped_after_violation", len(p.seq)-i)
 			p.firedAll = false
 			return
 		}
-		if !known[o.Subject] {
-			known[o.Subject] = true
-			p.subjects = append(p.subjects, o.Subject)
+		pre := last
+		if pre != nil {
+			if _, full := pre.Subjects[o.Subject]; !full {
+				pre = nil
+			}
 		}
-		pre := p.e.snap(p.subjects)
+		if pre == nil {
+			pre = p.e.snap(o.Subject)
+		}
+		last = nil
 		ledgerBefore := len(p.e.net.ledger)
 		a := p.arm(p.s)
 		err, stopped := p.exec(o)
@@ -978,7 +1047,7 @@ func (p *pass) run() {
 			p.count("redelivered_after_restart", p.e.net.redeliver())
 			p.count("process_stops", 1)
 		} else if err != nil {
-			mid := p.e.snap(p.subjects)
+			mid := p.e.snap(o.Subject)
 			cleanBefore = mid.ChangeLog == 0 && reflect.DeepEqual(mid.Subjects[o.Subject], pre.Subjects[o.Subject])
 			if cleanBefore {
 				p.count("failed_operations_already_clean_before_sweep", 1)
@@ -987,7 +1056,7 @@ func (p *pass) run() {
 			}
 		}
 		p.e.sweep()
-		post := p.e.snap(p.subjects)
+		post := p.e.snap(o.Subject)
 
 		tookEffect := err == nil && stopped == nil
 		switch {
@@ -1020,10 +1089,7 @@ func (p *pass) run() {
 		ok := p.compare(o, "after "+class+" and sweep", class, tookEffect, pre, post)
 		p.r.Case(strings.Join([]string{o.Kind, p.s.Name, outcome, fmt.Sprint(len(pre.Subjects[o.Subject].DIDs) > 0)}, "/"), fired || class == "no-fault")
 		if !tookEffect && ok {
-			for _, vm := range a.pending {
-				p.abandoned[vm] = fmt.Sprintf("%s at %s", o.Kind, p.s.Name)
-			}
-			p.count("abandoned_verification_methods", len(a.pending))
+			p.abandon(a.pending, pre, o)
 		}
 		if i == 1 || (stopped != nil && len(p.samples) < 2) {
 			p.samples = append(p.samples, map[string]any{"sequence": p.seqIdx, "site": p.s.Name, "operation": o, "boundaries_reached": a.trace, "error": fmt.Sprint(err),
@@ -1033,6 +1099,7 @@ func (p *pass) run() {
 		if !ok {
 			return
 		}
+		last = post
 		if !tookEffect && !natural {
 			// the repeated attempt
 			pre2 := post
@@ -1040,7 +1107,7 @@ func (p *pass) run() {
 			err2, stopped2 := p.exec(o)
 			p.cur = nil
 			p.e.sweep()
-			post2 := p.e.snap(p.subjects)
+			post2 := p.e.snap(o.Subject)
 			p.count("retries", 1)
 			if err2 != nil || stopped2 != nil {
 				key := "C13/retry-failed/" + o.Kind
@@ -1055,6 +1122,23 @@ func (p *pass) run() {
 			if !ok {
 				return
 			}
+			last = post2
+		}
+	}
+}
+
+// abandon records the verification methods that were created for versions that did not survive.
+func (p *pass) abandon(pending []string, pre *snapshot, o op) {
+	existed := map[string]bool{}
+	for _, d := range pre.Subjects[o.Subject].DIDs {
+		for _, vm := range d.VMs {
+			existed[vm] = true
+		}
+	}
+	for _, vm := range pending {
+		if !existed[vm] {
+			p.abandoned[vm] = fmt.Sprintf("%s at %s", o.Kind, p.s.Name)
+			p.count("abandoned_verification_methods", 1)
 		}
 	}
 }
@@ -1074,7 +1158,9 @@ type logCapture struct {
 	entries []string
 }
 
-func (c *logCapture) Levels() []logrus.Level { return []logrus.Level{logrus.ErrorLevel, logrus.WarnLevel} }
+func (c *logCapture) Levels() []logrus.Level {
+	return []logrus.Level{logrus.ErrorLevel, logrus.WarnLevel}
+}
 func (c *logCapture) Fire(e *logrus.Entry) error {
 	c.mu.Lock()
 	msg := e.Message
@@ -1116,6 +1202,13 @@ func TestCheck(t *testing.T) {
 
 	logrus.SetLevel(logrus.WarnLevel)
 	logrus.StandardLogger().AddHook(logs)
+	// the audit logger is a separate logrus instance that writes one line per key operation to the stderr it finds when it is first used
+	if devnull, err := os.OpenFile(os.DevNull, os.O_WRONLY, 0); err == nil {
+		saved := os.Stderr
+		os.Stderr = devnull
+		audit.Log(ctx(), logrus.NewEntry(logrus.StandardLogger()), "verif-start")
+		os.Stderr = saved
+	}
 	storage.DefaultBBoltOptions = append(storage.DefaultBBoltOptions, stoabs.WithNoSync())
 	rec := &sched.Recorder{OnHook: hook}
 	defer rec.Install()()
@@ -1133,8 +1226,8 @@ func TestCheck(t *testing.T) {
 	results := make([]*pass, nSeq*len(sites))
 	var wg sync.WaitGroup
 	workers := runtime.NumCPU()
-	if workers > 12 {
-		workers = 12
+	if workers > 14 {
+		workers = 14
 	}
 	for w := 0; w < workers; w++ {
 		wg.Add(1)
